@@ -91,6 +91,25 @@ impl DiskCache {
     }
 }
 
+/// One tracked entry as seen by [`DiskCache::verif_snapshot`]: (key, range, len, checksum, path).
+#[cfg(xet_verif)]
+pub type VerifTrackedItem = (Key, ChunkRange, u64, u32, PathBuf);
+
+#[cfg(xet_verif)]
+impl DiskCache {
+    /// Read-only snapshot of the counters and of every tracked entry, taken under the state lock.
+    pub fn verif_snapshot(&self) -> Result<(usize, u64, Vec<VerifTrackedItem>), ChunkCacheError> {
+        let state = self.state.lock()?;
+        let mut items = Vec::new();
+        for (key, list) in state.inner.iter() {
+            for item in list.iter() {
+                items.push((key.clone(), item.range, item.len, item.checksum, self.item_path(key, item)?));
+            }
+        }
+        Ok((state.num_items, state.total_bytes, items))
+    }
+}
+
 impl DiskCache {
     pub fn num_items(&self) -> Result<usize, ChunkCacheError> {
         let state = self.state.lock()?;
@@ -245,6 +264,8 @@ impl DiskCache {
             };
 
             let path = self.item_path(key, &cache_item)?;
+            #[cfg(xet_verif)]
+            utils::verif::point("cc.get.after_find");
 
             let mut file = match File::open(&path) {
                 Ok(file) => file,
@@ -257,6 +278,8 @@ impl DiskCache {
                 },
             };
 
+            #[cfg(xet_verif)]
+            utils::verif::point("cc.get.after_open");
             if !cache_item.is_verified() {
                 let checksum = crc32_from_reader(&mut file)?;
                 if checksum == cache_item.checksum {
@@ -323,6 +346,8 @@ impl DiskCache {
             }
         }
 
+        #[cfg(xet_verif)]
+        utils::verif::point("cc.put.before_write");
         let header = CacheFileHeader::new(chunk_byte_indices);
         let mut header_buf = Vec::with_capacity(header.header_len());
         header.serialize(&mut header_buf)?;
@@ -348,6 +373,8 @@ impl DiskCache {
             fw.close()?;
         }
 
+        #[cfg(xet_verif)]
+        utils::verif::point("cc.put.after_write");
         // evict items after ensuring the file write but before committing to cache state
         // to avoid removing new item.
         let mut state = self.state.lock()?;
@@ -392,6 +419,8 @@ impl DiskCache {
 
         // release lock
         drop(state);
+        #[cfg(xet_verif)]
+        utils::verif::point("cc.put.after_unlock");
 
         // remove files after done with modifying in memory state and releasing lock
         for path in overlapping_item_paths {
@@ -424,6 +453,8 @@ impl DiskCache {
 
         // validate stored data
         let path = self.item_path(key, cache_item)?;
+        #[cfg(xet_verif)]
+        utils::verif::point("cc.validate.start");
 
         let Ok(mut file) = File::open(path) else {
             self.remove_item(key, cache_item)?;
@@ -548,6 +579,8 @@ impl DiskCache {
         }
 
         let path = self.item_path(key, cache_item)?;
+        #[cfg(xet_verif)]
+        utils::verif::point("cc.remove.after_state");
 
         if !path.exists() {
             return Ok(());
